@@ -349,14 +349,43 @@ def run_impl(exe, casefile, outfile, env=None, timeout=3000):
 
 
 def run_model(casefile, timeout=3000):
+    """run the extracted model on a case file; large files are dealt round-robin to one runner process per core
+    (the runner numbers its output by the position of the line in the file it reads)"""
     exe = build_runner()
-    rc, out, dt = sh([exe, casefile], timeout=timeout)
-    res = {}
-    for line in out.splitlines():
-        t = line.split()
-        if t and t[0].isdigit():
-            res[int(t[0])] = t[1:]
-    return rc, res, out
+    lines = open(casefile).read().split("\n")
+    if lines and lines[-1] == "":
+        lines.pop()
+    plain = all(ln.strip() and not ln.startswith("#") for ln in lines)
+    if len(lines) < 64 or not plain:
+        rc, out, dt = sh([exe, casefile], timeout=timeout)
+        res = {}
+        for line in out.splitlines():
+            t = line.split()
+            if t and t[0].isdigit():
+                res[int(t[0])] = t[1:]
+        return rc, res, out
+    import concurrent.futures as cf
+    k = min(NPROC, len(lines))
+    parts = [list(range(i, len(lines), k)) for i in range(k)]
+
+    def work(j):
+        pth = f"{casefile}.shard{j}"
+        with open(pth, "w") as f:
+            for i in parts[j]:
+                f.write(lines[i] + "\n")
+        rc_, out_, _ = sh([exe, pth], timeout=timeout)
+        os.remove(pth)
+        return j, rc_, out_
+    res, rc, outs = {}, 0, []
+    with cf.ThreadPoolExecutor(max_workers=k) as ex:
+        for j, rc_, out_ in ex.map(work, range(k)):
+            rc = rc or rc_
+            outs.append(out_)
+            for line in out_.splitlines():
+                t = line.split()
+                if t and t[0].isdigit() and int(t[0]) < len(parts[j]):
+                    res[parts[j][int(t[0])]] = t[1:]
+    return rc, res, "\n".join(outs)
 
 
 def shard(items, n):
